@@ -1028,6 +1028,9 @@ type swamp struct {
 
 	valueBeaconASC  beacon.Beacon // ordered list of the Treasures by the ascendant Value field
 	valueBeaconDESC beacon.Beacon // ordered list of the Treasures by the descendant Value field
+	// valueBeaconType is the VALUE_* index type (a BeaconType) the shared value beacons are
+	// currently sorted by. Accessed atomically.
+	valueBeaconType int32
 
 	// -------------------  the following fields are used for the unordered list -------------------
 	// treasuresWaitingForWriter just the key of the treasures that are waiting for the writer to write them to the chroniclerInterface
@@ -2059,7 +2062,7 @@ func (s *swamp) GetBeacon(beaconType BeaconType, order BeaconOrder) beacon.Beaco
 		}
 		return s.updateTimeBeaconDESC
 	case BeaconTypeValueInt64, BeaconTypeValueFloat64, BeaconTypeValueString:
-		s.buildBeacon(s.valueBeaconASC, s.valueBeaconDESC, BeaconTypeValueInt64)
+		s.buildBeacon(s.valueBeaconASC, s.valueBeaconDESC, beaconType)
 		if order == IndexOrderAsc {
 			return s.valueBeaconASC
 		}
@@ -3142,6 +3145,16 @@ func (s *swamp) treasuresForBeacon(bc BeaconType) map[string]treasure.Treasure {
 
 func (s *swamp) buildBeacon(beaconASC beacon.Beacon, beaconDESC beacon.Beacon, bc BeaconType) {
 
+	// The VALUE_* index types share one pair of beacons. If the pair is sorted by another value
+	// type than the requested one, drop it and build it again for the requested type.
+	if beaconASC == s.valueBeaconASC {
+		if BeaconType(atomic.LoadInt32(&s.valueBeaconType)) != bc && (beaconASC.IsInitialized() || beaconDESC.IsInitialized()) {
+			beaconASC.Reset()
+			beaconDESC.Reset()
+		}
+		atomic.StoreInt32(&s.valueBeaconType, int32(bc))
+	}
+
 	// build the index only if it is not initialized
 	if beaconASC.IsInitialized() && beaconDESC.IsInitialized() {
 		return
@@ -3317,15 +3330,78 @@ func (s *swamp) addToValueBeacon(treasureInterface treasure.Treasure) {
 	if !s.valueBeaconASC.IsInitialized() {
 		return
 	}
+	// re-sort by the value type the index was built for
+	bc := BeaconType(atomic.LoadInt32(&s.valueBeaconType))
 	s.valueBeaconASC.Add(treasureInterface)
-	err := s.valueBeaconASC.SortByValueInt64ASC()
+	err := sortValueBeacon(s.valueBeaconASC, bc, true)
 	if err != nil {
 		slog.Error("failed to sort valueIntBeaconASC", "error", err)
 	}
 	s.valueBeaconDESC.Add(treasureInterface)
-	err = s.valueBeaconDESC.SortByValueInt64DESC()
+	err = sortValueBeacon(s.valueBeaconDESC, bc, false)
 	if err != nil {
 		slog.Error("failed to sort valueIntBeaconDESC", "error", err)
+	}
+}
+
+// sortValueBeacon sorts a value beacon by the given VALUE_* index type.
+func sortValueBeacon(b beacon.Beacon, bc BeaconType, asc bool) error {
+	switch bc {
+	case BeaconTypeValueUint8:
+		if asc {
+			return b.SortByValueUint8ASC()
+		}
+		return b.SortByValueUint8DESC()
+	case BeaconTypeValueUint16:
+		if asc {
+			return b.SortByValueUint16ASC()
+		}
+		return b.SortByValueUint16DESC()
+	case BeaconTypeValueUint32:
+		if asc {
+			return b.SortByValueUint32ASC()
+		}
+		return b.SortByValueUint32DESC()
+	case BeaconTypeValueUint64:
+		if asc {
+			return b.SortByValueUint64ASC()
+		}
+		return b.SortByValueUint64DESC()
+	case BeaconTypeValueInt8:
+		if asc {
+			return b.SortByValueInt8ASC()
+		}
+		return b.SortByValueInt8DESC()
+	case BeaconTypeValueInt16:
+		if asc {
+			return b.SortByValueInt16ASC()
+		}
+		return b.SortByValueInt16DESC()
+	case BeaconTypeValueInt32:
+		if asc {
+			return b.SortByValueInt32ASC()
+		}
+		return b.SortByValueInt32DESC()
+	case BeaconTypeValueFloat32:
+		if asc {
+			return b.SortByValueFloat32ASC()
+		}
+		return b.SortByValueFloat32DESC()
+	case BeaconTypeValueFloat64:
+		if asc {
+			return b.SortByValueFloat64ASC()
+		}
+		return b.SortByValueFloat64DESC()
+	case BeaconTypeValueString:
+		if asc {
+			return b.SortByValueStringASC()
+		}
+		return b.SortByValueStringDESC()
+	default:
+		if asc {
+			return b.SortByValueInt64ASC()
+		}
+		return b.SortByValueInt64DESC()
 	}
 }
 
